@@ -63,12 +63,24 @@ def tensor(c: cx.Ctx, name, shape, pos=False, nonneg=False, lo=None, hi=None, dt
     if shape == ():
         v = c.values.get(name)
         out[()] = float(v) if v is not None else _default(name)
+        _in_domain(c, name, float(out[()]), v is not None, pos, nonneg, lo, hi)
     for idx in np.ndindex(*shape) if shape else []:
         nm = "%s[%s]" % (name, ",".join(map(str, idx)))
         v = c.values.get(nm)
         out[idx] = float(v) if v is not None else _default(nm)
+        _in_domain(c, nm, float(out[idx]), v is not None, pos, nonneg, lo, hi)
     c.inputs[name] = shape
     return out
+
+
+def _in_domain(c, name, v, given, pos, nonneg, lo, hi):
+    """concrete mode: a replayed value outside the declared domain of an input invalidates the run (values the
+    model leaves open get a default, which is not checked)"""
+    if not given:
+        return
+    bad = (pos and not v > 0) or (nonneg and not v >= 0) or (lo is not None and not v >= float(lo)) or (hi is not None and not v <= float(hi))
+    if bad:
+        c.assume_failed.append("input %s = %r outside its declared domain" % (name, v))
 
 
 def real(c: cx.Ctx, name, pos=False, nonneg=False, lo=None, hi=None):
@@ -85,6 +97,8 @@ def real(c: cx.Ctx, name, pos=False, nonneg=False, lo=None, hi=None):
         c.inputs[name] = None
         return SymReal(v)
     v = c.values.get(name)
+    if v is not None:
+        _in_domain(c, name, float(v), True, pos, nonneg, lo, hi)
     return float(v) if v is not None else _default(name)
 
 
